@@ -508,6 +508,10 @@ async def _run(case, out):
             try:
                 with blob.reader_context() as reader:
                     got = reader.read()
+                    if case.get("close_in_reader"):
+                        # the download is torn down (stream stopped) while a reader is still open
+                        blob.close()
+                        out.label("closed_while_reader_open")
             except OSError as e:
                 out.violate("verified-but-unreadable", repr(e))
             else:
@@ -545,6 +549,12 @@ async def _run(case, out):
                     elif kind == "file":
                         with open(path, "rb") as f:
                             out.check(f.read() == content, "second-download:stored-bytes-wrong", "")
+                    if blob.get_is_verified():
+                        try:
+                            with blob.reader_context() as reader:
+                                out.check(reader.read() == content, "second-download:reader-returns-other-bytes", "")
+                        except Exception as e:  # noqa
+                            out.violate("second-download:verified-but-unreadable:%s" % type(e).__name__, repr(e)[:200])
                     out.label("second_download")
             else:
                 out.label("second_download_skipped:still-verified")
@@ -670,7 +680,8 @@ def case_strategy(draw, big=False, tier="quick"):
     schedule = [list(x) for x in draw(st.lists(op, min_size=0, max_size=30 if not big else 12))]
     tail = draw(st.sampled_from(["rr", "rr", "rr_yield", "seq", "seq_rev", "none"]))
     return {"content": content, "declared": declared, "blob_kind": blob_kind, "n_initial": n_initial,
-            "writers": writers, "schedule": schedule, "tail": tail, "again": draw(st.sampled_from([False, False, True]))}
+            "writers": writers, "schedule": schedule, "tail": tail, "again": draw(st.sampled_from([False, False, True])),
+            "close_in_reader": draw(st.sampled_from([False, False, True]))}
 
 
 PARTS = [
